@@ -105,10 +105,20 @@ def traced_class(P, cache_on: bool):
     return type("Traced", (P,), ns)
 
 
+def source_tokens(source):
+    """the raw token stream of an input; comments of the form `# type: ...` are delivered as TYPE_COMMENT tokens (what a
+    tokenizer with type comments enabled does), so that the TYPE_COMMENT primitive can be exercised"""
+    import token as _tk
+    for t in tokenize.generate_tokens(io.StringIO(source).readline):
+        if t.type == tokenize.COMMENT and t.string.startswith("# type:"):
+            t = t._replace(type=_tk.TYPE_COMMENT)
+        yield t
+
+
 def run_one(T, source, verbose, call_invalid, limit):
     from pegen.tokenizer import Tokenizer
     try:
-        toks = list(tokenize.generate_tokens(io.StringIO(source).readline))
+        toks = list(source_tokens(source))
     except (tokenize.TokenError, IndentationError, SyntaxError):
         return {"kind": "untokenizable"}        # e.g. an unclosed bracket: not a token sequence, skipped by the callers
     tk = Tokenizer(iter(toks))
@@ -140,7 +150,7 @@ def run_one(T, source, verbose, call_invalid, limit):
 
 def filtered_tokens(source):
     from pegen.tokenizer import Tokenizer
-    tk = Tokenizer(tokenize.generate_tokens(io.StringIO(source).readline))
+    tk = Tokenizer(source_tokens(source))
     out = []
     try:
         while True:
